@@ -334,16 +334,23 @@ class OptionsDictionary(object):
         None
             Yields None after entering a temporary context.
         """
-        for option, val in kwargs.items():
-            if option not in self._context_cache:
-                self._context_cache[option] = []
-            self._context_cache[option].append(self[option])
-            self[option] = val
-        yield
-        for option in kwargs:
-            self[option] = self._context_cache[option].pop()
-            if len(self._context_cache[option]) == 0:
-                self._context_cache.pop(option)
+        entered = []
+        try:
+            for option, val in kwargs.items():
+                old_val = self[option]
+                if option not in self._context_cache:
+                    self._context_cache[option] = []
+                self._context_cache[option].append(old_val)
+                entered.append(option)
+                self[option] = val
+            yield
+        finally:
+            # restore on normal exit, on an exception in the body, and when one of the
+            # temporary values is rejected after others have already been set
+            for option in reversed(entered):
+                self[option] = self._context_cache[option].pop()
+                if len(self._context_cache[option]) == 0:
+                    self._context_cache.pop(option)
 
     def declare(self, name, default=_UNDEFINED, values=None, types=None, desc='',
                 upper=None, lower=None, check_valid=None, allow_none=False, recordable=True,
